@@ -1,9 +1,12 @@
 (* C04: format codecs are lossless and equal the format encoding of the basic form.
-   encode_F = ser_F o pack_{dialect F}, decode_F = unpack_{dialect F} o parse_F  (Format.v);
-   ser/parse (json, orjson, yaml, msgpack, tomli_w/tomllib) and the stdlib leaf codecs are
-   universally quantified functions constrained only by their assumed laws. *)
+   encode = ser_F o pack_ls, decode = unpack_ls o parse_F  (Fmt.v), where ls is the effective dialect:
+   the format's own dialect merged with the caller's dialect (Dialect.merge).  The model has a class table
+   (nested / inherited-flattened / self-referencing dataclasses, typing.Self), discriminated unions,
+   Any positions, Literal tags, lists, str-keyed mappings, Optional and the text-rendered leaves.
+   ser/parse (json, orjson, yaml, msgpack, tomli_w/tomllib), the stdlib leaf codecs and the user's strategy
+   pairs are universally quantified functions constrained only by their assumed laws. *)
 From Coq Require Import List String ZArith Bool.
-From Verif Require Import Format FormatProofs.
+From Verif Require Import Fmt FmtProofs.
 Import ListNotations.
 Open Scope string_scope.
 
@@ -15,78 +18,106 @@ Theorem C04_roundtrip_refuted : ~ C04_roundtrip_full.
 Proof. exact roundtrip_refuted. Qed.
 Print Assumptions C04_roundtrip_refuted.
 
-(* the round trip holds for all five formats once Optional fields default to None
-   (a premise only for TOML: defaults_ok F t := omit_none (dialect F) = true -> ...) *)
+(* the round trip holds for every coherent effective dialect once Optional fields default to None
+   (a premise only when the dialect omits None, i.e. TOML) *)
 Theorem C04_roundtrip_partial :
   forall (render: lkind -> string -> string) (parse_leaf: lkind -> string -> option string)
-         (leaf_ok: lkind -> string -> bool),
+         (urender: nat -> lkind -> string -> string) (uparse: nat -> lkind -> string -> option string)
+         (leaf_ok: lkind -> string -> bool) (E: env),
     (forall k p, leaf_ok k p = true -> parse_leaf k (render k p) = Some p) ->
+    (forall u k p, leaf_ok k p = true -> uparse u k (urender u k p) = Some p) ->
     forall (doc: Type) (ser: fmt -> bv -> doc) (parse: fmt -> doc -> option bv)
            (leaf_repr: fmt -> lkind -> string -> bool),
     (forall F b, representable leaf_repr F b = true -> parse F (ser F b) = Some (norm render F b)) ->
-    forall F t v d,
-      in_subset render leaf_ok leaf_repr F t v -> defaults_ok F t ->
-      encode render doc ser F t v = Ok d -> decode parse_leaf doc parse F t d = Ok v.
+    forall ls F t v d,
+      coherentb F ls = true ->
+      in_subset render urender leaf_ok E leaf_repr ls F t v -> defaults_ok E ls ->
+      encode render urender E doc ser ls F t v = Ok d -> decode parse_leaf uparse E doc parse ls F t d = Ok v.
 Proof. exact roundtrip. Qed.
 Print Assumptions C04_roundtrip_partial.
 
-(* parse_F(encode_F v) ~_F basic form, where  d ~_F b  :=  render_natives d = (toml ? drop_nulls b : b) *)
+(* the five format dialects are coherent, and stay so under a caller's dialect that gives both directions *)
+Theorem C04_format_dialects_coherent : forall F X, both_dirs X = true -> coherentb F (eff_lsem F X) = true.
+Proof. exact user_coherent. Qed.
+Print Assumptions C04_format_dialects_coherent.
+
+(* parse_F(encode v) ~ basic form (under the same caller's dialect), where
+   d ~ b  :=  render_natives d = (omit_none ? drop_nulls b : b) *)
 Theorem C04_doc_is_basic :
-  forall (render: lkind -> string -> string) (leaf_ok: lkind -> string -> bool),
+  forall (render: lkind -> string -> string) (urender: nat -> lkind -> string -> string)
+         (leaf_ok: lkind -> string -> bool) (E: env),
     (forall k p, render (wire k) p = render k p) ->
     forall (doc: Type) (ser: fmt -> bv -> doc) (parse: fmt -> doc -> option bv)
            (leaf_repr: fmt -> lkind -> string -> bool),
     (forall F b, representable leaf_repr F b = true -> parse F (ser F b) = Some (norm render F b)) ->
-    forall F t v d,
-      in_subset render leaf_ok leaf_repr F t v -> encode render doc ser F t v = Ok d ->
-      exists pd bb, parse F d = Some pd /\ pack render basic_dl t v = Ok bb /\ approx render F pd bb.
+    forall ls F t v d,
+      (omit_none ls = true -> F = FToml) ->
+      in_subset render urender leaf_ok E leaf_repr ls F t v -> encode render urender E doc ser ls F t v = Ok d ->
+      exists pd bb, parse F d = Some pd /\ pack render urender E (basic_of ls) v "" t = Ok bb /\
+                    approx render (omit_none ls) pd bb.
 Proof. exact doc_is_basic. Qed.
 Print Assumptions C04_doc_is_basic.
 
 (* for json, yaml and orjson the relation is plain equality: nothing is ignored *)
 Theorem C04_doc_exact :
-  forall (render: lkind -> string -> string) (leaf_ok: lkind -> string -> bool),
+  forall (render: lkind -> string -> string) (urender: nat -> lkind -> string -> string)
+         (leaf_ok: lkind -> string -> bool) (E: env),
     (forall k p, render (wire k) p = render k p) ->
     forall (doc: Type) (ser: fmt -> bv -> doc) (parse: fmt -> doc -> option bv)
            (leaf_repr: fmt -> lkind -> string -> bool),
     (forall F b, representable leaf_repr F b = true -> parse F (ser F b) = Some (norm render F b)) ->
-    forall F t v d,
-      exact_fmt F = true ->
-      in_subset render leaf_ok leaf_repr F t v -> encode render doc ser F t v = Ok d ->
-      exists bb, pack render basic_dl t v = Ok bb /\ parse F d = Some bb.
+    forall ls F t v d,
+      exact_fmt F = true -> omit_none ls = false ->
+      in_subset render urender leaf_ok E leaf_repr ls F t v -> encode render urender E doc ser ls F t v = Ok d ->
+      exists bb, pack render urender E (basic_of ls) v "" t = Ok bb /\ parse F d = Some bb.
 Proof. exact doc_exact. Qed.
 Print Assumptions C04_doc_exact.
 
-(* ---- non-vacuity: the premises are met by an instance with native leaves, a nested record,
-        an omitted None and a non-trivial document ---- *)
-Definition ex_ty : ty :=
-  TRec "Outer" [("when", (TLeaf KDatetime, false)); ("blob", (TLeaf KBytearray, false));
-                ("opt", (TOpt TInt, true));
-                ("inner", (TList (TRec "In" [("t", (TLeaf KTime, false)); ("m", (TDict TStr, false))]), false))].
-Definition ex_val : pv :=
-  VObj "Outer" [("when", VLeaf KDatetime "2020-01-02T03:04:05"); ("blob", VLeaf KBytearray "ab");
-                ("opt", VNone);
-                ("inner", VList [VObj "In" [("t", VLeaf KTime "01:02:03"); ("m", VDict [("k", VStr "v")])]])].
+(* ---- non-vacuity: a self-referencing class (typing.Self and by name), a discriminated union whose
+        variants hold native leaves, an Any position, an omitted None, a caller's dialect for bytes ---- *)
+Definition ex_env : env :=
+  [("Node", [("when", (TLeaf KDatetime, false)); ("blob", (TLeaf KBytearray, false)); ("raw", (TLeaf KBytes, false));
+             ("opt", (TOpt TInt, true)); ("extra", (TAny, true));
+             ("next", (TOpt TSelf, true)); ("kids", (TList (TData "Node"), false));
+             ("shape", (TDiscr "kind" [("c", "Circle"); ("s", "Square")], false))]);
+   ("Circle", [("r", (TFloat, false)); ("at", (TLeaf KTime, false)); ("kind", (TLit "c", false))]);
+   ("Square", [("side", (TInt, false)); ("kind", (TLit "s", false))])].
 
-Example C04_nonvacuous_subset_toml :
-  in_subset id_render all_ok all_repr FToml ex_ty ex_val /\ defaults_ok FToml ex_ty.
+Definition ex_leaf : pv :=
+  VObj "Node" [("when", VLeaf KDatetime "2021-01-01T00:00:00"); ("blob", VLeaf KBytearray ""); ("raw", VLeaf KBytes "ff");
+               ("opt", VInt 7%Z); ("extra", VStr "x"); ("next", VNone); ("kids", VList []);
+               ("shape", VObj "Square" [("side", VInt 2%Z); ("kind", VStr "s")])].
+Definition ex_val : pv :=
+  VObj "Node" [("when", VLeaf KDatetime "2020-01-02T03:04:05"); ("blob", VLeaf KBytearray "ab"); ("raw", VLeaf KBytes "00");
+               ("opt", VNone); ("extra", VList [VInt 1%Z; VDict [("k", VStr "v")]]);
+               ("next", ex_leaf); ("kids", VList [ex_leaf]);
+               ("shape", VObj "Circle" [("r", VFloat (FFin 1%Z)); ("at", VLeaf KTime "01:02:03"); ("kind", VStr "c")])].
+
+(* caller's dialect: bytes rendered by user strategy 0 (callable id 2) in both directions *)
+Definition ex_user : udialect := udial_of [(KBytes, EDict (Some 2%nat) (Some 2%nat))].
+
+Example C04_nonvacuous_subset :
+  in_subset id_render id_urender all_ok ex_env all_repr (eff_lsem FMsgpack ex_user) FMsgpack (TData "Node") ex_val
+  /\ coherentb FMsgpack (eff_lsem FMsgpack ex_user) = true
+  /\ in_subset id_render id_urender all_ok ex_env all_repr (eff_lsem FToml no_user) FToml (TData "Node") ex_leaf
+  /\ defaults_ok ex_env (eff_lsem FToml no_user).
 Proof.
-  split.
-  - unfold in_subset. split; [reflexivity|]. split; [reflexivity|].
-    eexists. split; [reflexivity | reflexivity].
+  split; [|split; [|split]].
+  - unfold in_subset. split; [reflexivity|]. split; [reflexivity|]. split; [reflexivity|].
+    eexists. split; [vm_compute; reflexivity | vm_compute; reflexivity].
+  - reflexivity.
+  - unfold in_subset. split; [reflexivity|]. split; [reflexivity|]. split; [reflexivity|].
+    eexists. split; [vm_compute; reflexivity | vm_compute; reflexivity].
   - intro H. reflexivity.
 Qed.
 
-(* the TOML tree keeps the datetime and the time native and has no "opt" key;
-   the msgpack tree keeps the bytearray native, which the library hands back as bytes *)
+(* the msgpack tree keeps the bytearray native (handed back as bytes), renders `raw` by the caller's
+   strategy, and the whole value - recursion, discriminated union, Any - decodes back *)
 Example C04_nonvacuous_trees :
-  pack id_render (dialect_of FToml) ex_ty ex_val =
-    Ok (BDict [("when", BNat KDatetime "2020-01-02T03:04:05"); ("blob", BStr "ab");
-               ("inner", BList [BDict [("t", BNat KTime "01:02:03"); ("m", BDict [("k", BStr "v")])]])])
-  /\ (exists b, pack id_render (dialect_of FMsgpack) ex_ty ex_val = Ok b /\
-                lookup "blob" (match norm id_render FMsgpack b with BDict l => l | _ => [] end) = Some (BNat KBytes "ab"))
-  /\ unpack id_parse_leaf (dialect_of FToml) ex_ty
-       (BDict [("when", BNat KDatetime "2020-01-02T03:04:05"); ("blob", BStr "ab");
-               ("inner", BList [BDict [("t", BNat KTime "01:02:03"); ("m", BDict [("k", BStr "v")])]])])
-     = Ok ex_val.
-Proof. split; [reflexivity|]. split; [eexists; split; reflexivity | reflexivity]. Qed.
+  exists b, pack id_render id_urender ex_env (eff_lsem FMsgpack ex_user) ex_val "" (TData "Node") = Ok b
+    /\ lookup "blob" (match norm id_render FMsgpack b with BDict l => l | _ => [] end) = Some (BNat KBytes "ab")
+    /\ lookup "raw" (match b with BDict l => l | _ => [] end) = Some (BStr "00")
+    /\ lookup "opt" (match b with BDict l => l | _ => [] end) = Some BNone
+    /\ unpack id_parse_leaf id_uparse ex_env (eff_lsem FMsgpack ex_user) (norm id_render FMsgpack b) "" (TData "Node")
+       = Ok ex_val.
+Proof. eexists. split; [vm_compute; reflexivity|]. repeat split; vm_compute; reflexivity. Qed.
